@@ -128,6 +128,15 @@ static void part_gauss(const std::vector<unsigned>& ns, bool mixtures) {
                 renorm(*ps);
                 res[other][0] = ps->getMoment(0, 0)[bt]; res[other][1] = ps->getBunchLength()[bt];
                 res[other][2] = ps->getMoment(1, 0)[bt]; res[other][3] = ps->getEnergySpread()[bt];
+                if (other == 0 && !mix) {
+                    // zeroth moment row by row: each projection of a Gaussian is its marginal, scaled to the bunch's share
+                    for (int ax = 0; ax < 2; ax++) {
+                        const double m = ax ? g.mp : g.mq, sg = ax ? g.sp : g.sq; double worst = 0, peak = fill[bt] / (std::sqrt(2 * M_PI) * sg);
+                        for (unsigned i = 0; i < n; i++) { const double c = ax ? ps->p(i) : ps->q(i); worst = std::max(worst, std::fabs(ps->getProjection(ax)[bt][i] - peak * std::exp(-0.5 * (c - m) * (c - m) / (sg * sg)))); }
+                        R.maxnum("worst_projection_vs_marginal_rel", worst / peak);
+                        if (!(worst <= 5e-4 * peak)) { char dd[200]; snprintf(dd, 200, "bunch %u axis %d: projection deviates from the Gaussian marginal by %.3g of its peak", bt, ax, worst / peak); R.violate(std::string("C09/projection/not-the-marginal/axis=") + (ax ? "energy" : "position"), kase, dd); }
+                    }
+                }
                 if (other == 0) {
                     R.eval(kase + " bunch=" + std::to_string(bt), mcx::fnv(res[0], 16, mcx::fnvs(kase) + bt), false);
                     const double want[4] = {mq, std::sqrt(vq), mp, std::sqrt(vp)};
